@@ -161,6 +161,7 @@ type ScanOpts struct {
 	Faults    *FaultPlan
 	StaleView bool // serve the previous scan's snapshot again
 	BeforeGet func(name string)
+	BeforeUpdate func(name string)
 	MidScan   bool // the world changes while the scan runs (exact-count oracles do not apply)
 }
 
@@ -194,6 +195,7 @@ type ScanRecord struct {
 	Err     error
 	Panic   interface{}
 	Stack   string
+	Rebuilt bool // the cloud provider was rebuilt during the scan (refresh failed)
 	MidScan bool // something changed a node between the snapshot and escalator's read
 	Crashed bool // injected process death
 	Fatal   bool // escalator called log.Fatal
@@ -250,6 +252,7 @@ func (e *Env) RunScan(o ScanOpts) *ScanRecord {
 	rec.View = e.K.View
 	rec.MidScan = o.MidScan
 	e.K.BeforeGet = o.BeforeGet
+	e.K.BeforeUpdate = o.BeforeUpdate
 
 	e.Faults.ByIndex, e.Faults.ByNode, e.Faults.ByAPI, e.Faults.Ordinal, e.Faults.ByNodeUpdate = nil, nil, nil, nil, nil
 	if o.Faults != nil {
@@ -272,6 +275,7 @@ func (e *Env) RunScan(o ScanOpts) *ScanRecord {
 	e.Logs.Lines = e.Logs.Lines[:0]
 
 	e.J.BeginScan(e.ScanNo)
+	buildsBefore := e.BuildCalls
 	from := len(e.J.Events)
 	rec.Start = time.Now().UnixNano()
 	func() {
@@ -294,11 +298,13 @@ func (e *Env) RunScan(o ScanOpts) *ScanRecord {
 	}()
 	e.J.EndScan()
 	rec.End = time.Now().UnixNano()
+	rec.Rebuilt = e.BuildCalls != buildsBefore
 	rec.Events = e.J.Since(from)
 	rec.FaultHits = e.Faults.Hits
 	rec.FaultCalls = e.Faults.Calls()
 	e.Faults.ByIndex, e.Faults.ByNode, e.Faults.ByAPI, e.Faults.Ordinal, e.Faults.ByNodeUpdate = nil, nil, nil, nil, nil
 	e.K.BeforeGet = nil
+	e.K.BeforeUpdate = nil
 	rec.Mutated = rec.View.Mutated()
 	rec.Cache = map[string]*ASGSnap{}
 	for k, v := range e.AWS.Cache {
